@@ -1,7 +1,70 @@
-From RV Require Import Mon.
+(* Emission discipline: what every submission a coroutine hands to the AIO satisfies at the tick it is
+   emitted, relative to the durable state at that moment; and the state invariant of coroutine instances
+   (the promise records a coroutine holds are rows of the database, up to completion). *)
+From RV Require Import Mon StoreLocks StorePromises.
 From Coq Require Import Lia.
 
-Definition cmd_at (now : Z) (c : command) : Prop :=
+(* ---------- records a coroutine holds vs. rows ---------- *)
+
+Definition ceq (p q : promise) : Prop :=
+  p_id p = p_id q /\ p_ph p = p_ph q /\ p_pd p = p_pd q /\ p_timeout p = p_timeout q /\
+  p_ikc p = p_ikc q /\ p_tags p = p_tags q /\ p_created p = p_created q.
+
+Definition compl_eq (p q : promise) : Prop :=
+  p_state p = p_state q /\ p_vh p = p_vh q /\ p_vd p = p_vd q /\ p_iku p = p_iku q /\ p_completed p = p_completed q.
+
+(* p is (a possibly older view of) a row of d: creation fields agree; if p shows a completed state the
+   completion fields agree too (write-once) *)
+Definition prec (d : db) (p : promise) : Prop :=
+  exists q, In q (promises d) /\ ceq p q /\ (p_state p <> Pending -> compl_eq p q).
+
+Lemma prec_mono : forall d d' p, prom_le d d' -> prec d p -> prec d' p.
+Proof.
+  intros d d' p [A _] [q [Hq [C K]]]. destruct (A q Hq) as [q' [Hq' [Cq [Nq Pq]]]].
+  exists q'. split; [exact Hq'|]. split.
+  - unfold ceq, creation_eq in *. destruct C as (a&b&c&e&f&g&h), Cq as (a'&_&b'&c'&e'&f'&g'&h'). repeat split; congruence.
+  - intros Hn. specialize (K Hn). assert (Hqn : p_state q <> Pending) by (destruct K as [K1 _]; congruence).
+    rewrite (Nq Hqn). exact K.
+Qed.
+
+Lemma prec_of_row : forall d q, In q (promises d) -> prec d (p_unsorted q) /\ prec d q.
+Proof.
+  intros d q Hq. split; exists q; (split; [exact Hq|]); (split; [unfold ceq; cbn; tauto|intros _; unfold compl_eq; cbn; tauto]).
+Qed.
+
+(* ---------- what an UpdatePromise command must look like relative to the row it names ---------- *)
+
+Definition user_state (s : Z) : bool := (s =? Resolved) || (s =? Rejected) || (s =? Canceled).
+
+Definition up_ok (d : db) (now : Z) (u : update_promise_cmd) : Prop :=
+  exists q, In q (promises d) /\ p_id q = up_id u /\
+    ((up_completed u = p_timeout q /\ p_timeout q <= now /\ up_state u = timedout_state (p_tags q) /\
+      up_vh u = [] /\ up_vd u = EmptyString /\ up_ikey u = None) \/
+     (up_completed u < p_timeout q /\ up_completed u <= now /\ user_state (up_state u) = true)).
+
+Lemma up_ok_mono : forall d d' now now' u, prom_le d d' -> now <= now' -> up_ok d now u -> up_ok d' now' u.
+Proof.
+  intros d d' now now' u [A _] Hle [q [Hq [Hid H]]]. destruct (A q Hq) as [q' [Hq' [Cq _]]].
+  destruct Cq as (a&_&b&c&e&f&g&h). exists q'. split; [exact Hq'|]. split; [congruence|].
+  rewrite <- e, <- g. destruct H as [H|H]; [left|right]; intuition lia.
+Qed.
+
+Lemma timedout_state_final : forall tags, final_state (timedout_state tags) = true.
+Proof. intros tags. unfold timedout_state. destruct (opt_eqb _ _ _); reflexivity. Qed.
+
+Lemma user_state_final : forall s, user_state s = true -> final_state s = true.
+Proof. intros s H. unfold user_state, final_state in *. rewrite H. reflexivity. Qed.
+
+Lemma up_ok_final : forall d now u, up_ok d now u -> final_state (up_state u) = true.
+Proof.
+  intros d now u [q [_ [_ [H|H]]]].
+  - destruct H as (_&_&->&_). apply timedout_state_final.
+  - apply user_state_final. tauto.
+Qed.
+
+(* ---------- emission discipline ---------- *)
+
+Definition cmd_at (d : db) (now : Z) (c : command) : Prop :=
   match c with
   | TimeoutLocks t => t = now
   | HeartbeatLocks _ t => t = now
@@ -12,70 +75,410 @@ Definition cmd_at (now : Z) (c : command) : Prop :=
   | AcquireLock _ _ _ ttl exp => exp = add64 now ttl
   | CompleteTasks _ t => t = now
   | CreateTasks _ t => t = now
+  | UpdatePromise u => up_ok d now u
   | _ => True
   end.
-Definition sub_at (now : Z) (s : sub) : Prop :=
-  match s with SStore cs => Forall (cmd_at now) cs | _ => True end.
 
-
-
-
-
-
-Definition extra_ok (s : slot) : Prop :=
-  match s with SlRouter _ _ extra => forall now, Forall (cmd_at now) extra | _ => True end.
-Definition fk_ok (k : fkont) : Prop :=
-  match k with FBgEnqueue _ _ _ pre => forall now, Forall (cmd_at now) pre | _ => True end.
-Definition st_ok (st : cstate) : Prop :=
-  match st with CFan k slots _ => Forall extra_ok slots /\ fk_ok k | _ => True end.
-Definition out_ok (now : Z) (o : step_out) : Prop := Forall (sub_at now) (o_subs o) /\ st_ok (o_state o).
-
-Ltac head_split :=
-  match goal with
-  | |- out_ok _ (match ?x with _ => _ end) => destruct x eqn:?
+Definition sub_at (d : db) (now : Z) (s : sub) : Prop :=
+  match s with
+  | SStore cs => Forall (cmd_at d now) cs
+  | SSender m => match sd_promise m with Some p => prec d p | None => True end
+  | SRouter _ => True
   end.
 
-Lemma spawn_timeouts_at : forall ps now next, Forall (sub_at now) (snd (spawn_timeouts ps now next)).
+(* time-independent commands (stored inside coroutine state and emitted at a later tick) *)
+Definition cmd_any (c : command) : Prop :=
+  match c with
+  | TimeoutLocks _ | HeartbeatLocks _ _ | HeartbeatTasks _ _ | ReadPromises _ _ | ReadSchedules _ _ | ReadTasks _ _ _
+  | AcquireLock _ _ _ _ _ | CompleteTasks _ _ | CreateTasks _ _ | UpdatePromise _ => False
+  | _ => True
+  end.
+
+Lemma cmd_any_at : forall d now c, cmd_any c -> cmd_at d now c.
+Proof. intros d now c H. destruct c; cbn in *; try contradiction; exact I. Qed.
+
+(* ---------- completions ---------- *)
+
+Definition res_ok (d : db) (r : result) : Prop :=
+  match r with RPromises _ _ recs => Forall (prec d) recs | _ => True end.
+Definition cpl_ok (d : db) (c : cpl) : Prop :=
+  match c with CStore rs => Forall (res_ok d) rs | _ => True end.
+
+Lemma res_ok_mono : forall d d' r, prom_le d d' -> res_ok d r -> res_ok d' r.
 Proof.
-  induction ps as [|p ps IH]; intros now next; cbn; [constructor|].
-  specialize (IH now (S next)). destruct (spawn_timeouts ps now (S next)) as [sl sb]. cbn in *.
-  constructor; [|exact IH]. cbn. repeat constructor.
+  intros d d' r L H. destruct r; cbn in *; try exact I. eapply Forall_impl; [|exact H]. intros p. apply prec_mono; exact L.
+Qed.
+Lemma cpl_ok_mono : forall d d' c, prom_le d d' -> cpl_ok d c -> cpl_ok d' c.
+Proof.
+  intros d d' c L H. destruct c; cbn in *; try exact I. eapply Forall_impl; [|exact H]. intros r. apply res_ok_mono; exact L.
 Qed.
 
-Lemma spawn_schedules_at : forall cfg now ss next, Forall (sub_at now) (snd (spawn_schedules cfg now ss next)).
+(* ---------- requests as the front ends let them through ---------- *)
+
+Definition req_wf (q : request) : Prop :=
+  match q with
+  | QCompletePromise r => user_state (cmr_state r) = true
+  | _ => True
+  end.
+
+(* ---------- coroutine state invariant ---------- *)
+
+Definition k_ok (d : db) (k : kont) : Prop :=
+  match k with
+  | KReadP_to _ p cmd => prec d p /\ up_id cmd = p_id p
+  | KCreate_to _ _ _ p cmd => prec d p /\ up_id cmd = p_id p
+  | KComplete r => user_state (cmr_state r) = true
+  | KComplete_up r p cmd _ => prec d p /\ up_id cmd = p_id p /\ user_state (cmr_state r) = true
+  | KCallback_ins p _ => prec d p
+  | _ => True
+  end.
+
+Definition extra_ok (s : slot) : Prop :=
+  match s with SlRouter _ _ extra => Forall cmd_any extra | _ => True end.
+Definition fk_ok (k : fkont) : Prop :=
+  match k with FBgEnqueue _ _ _ pre => Forall cmd_any pre | _ => True end.
+Definition st_ok (d : db) (st : cstate) : Prop :=
+  match st with
+  | CSeq k _ => k_ok d k
+  | CFan k slots _ => Forall extra_ok slots /\ fk_ok k
+  | CDone => True
+  end.
+
+Lemma k_ok_mono : forall d d' k, prom_le d d' -> k_ok d k -> k_ok d' k.
 Proof.
-  induction ss as [|s ss IH]; intros next; cbn; [constructor|].
-  destruct (schedule_child cfg now s) as [[pc extra]|].
-  - specialize (IH (S next)). destruct (spawn_schedules cfg now ss (S next)) as [sl sb]. cbn in *. constructor; [exact I|exact IH].
-  - specialize (IH next). destruct (spawn_schedules cfg now ss next) as [sl sb]. cbn in *. exact IH.
+  intros d d' k L H. destruct k; cbn in *; try exact H; try (eapply prec_mono; eassumption);
+    destruct H; (split; [eapply prec_mono; eassumption|assumption]).
+Qed.
+Lemma st_ok_mono : forall d d' st, prom_le d d' -> st_ok d st -> st_ok d' st.
+Proof. intros d d' st L H. destruct st; cbn in *; try exact H. eapply k_ok_mono; eassumption. Qed.
+
+Lemma cmd_at_mono_db : forall d d' now c, prom_le d d' -> cmd_at d now c -> cmd_at d' now c.
+Proof. intros d d' now c L H. destruct c; cbn in *; try exact H. apply (up_ok_mono d d' now now _ L (Z.le_refl now) H). Qed.
+Lemma sub_at_mono_db : forall d d' now s, prom_le d d' -> sub_at d now s -> sub_at d' now s.
+Proof.
+  intros d d' now s L H. destruct s; cbn in *; try exact I.
+  - eapply Forall_impl; [|exact H]. intros c. apply cmd_at_mono_db; exact L.
+  - destruct (sd_promise m); [eapply prec_mono; eassumption|exact I].
 Qed.
 
-Lemma spawn_sends_at : forall cfg now exp ts rs next, Forall (sub_at now) (snd (fst (spawn_sends cfg now exp ts rs next))).
+
+(* ---------- results vs. the commands they answer ---------- *)
+
+Definition ucompl (u : update_promise_cmd) (q : promise) : Prop :=
+  p_state q = up_state u /\ p_vh q = up_vh u /\ p_vd q = up_vd u /\ p_iku q = up_ikey u /\
+  p_completed q = Some (up_completed u) /\ final_state (up_state u) = true.
+
+Definition res_for (d : db) (c : command) (r : result) : Prop :=
+  match c, r with
+  | ReadPromise id, RPromises _ _ recs => Forall (fun p => prec d p /\ p_id p = id) recs
+  | ReadPromises _ _, RPromises _ _ recs => Forall (prec d) recs
+  | SearchPromises _ _ _ _ _, RPromises _ _ recs => Forall (prec d) recs
+  | UpdatePromise u, RAlter n => n = 1 -> exists q, In q (promises d) /\ p_id q = up_id u /\ ucompl u q
+  | CreatePromise pc, _ => exists n, r = RAlter n /\ (n = 0 \/ prec d (created_promise pc))
+  | CreatePromiseAndTask pc _, _ => exists n m, r = RAlter2 n m /\ (n = 0 \/ prec d (created_promise pc))
+  | _, _ => True
+  end.
+
+Definition rdy_ok (d : db) (s : sub) (c : cpl) : Prop :=
+  match s, c with
+  | SStore cs, CStore rs => Forall2 (res_for d) cs rs
+  | _, _ => True
+  end.
+
+Lemma res_for_mono : forall d d' c r, prom_le d d' -> res_for d c r -> res_for d' c r.
 Proof.
-  induction ts as [|t ts IH]; intros rs next; cbn; [constructor|].
-  destruct (now <? t_timeout t).
-  - specialize (IH (tl rs) (S next)). destruct (spawn_sends cfg now exp ts (tl rs) (S next)) as [[sl sb] pre]. cbn in *.
-    constructor; [exact I|exact IH].
-  - specialize (IH (tl rs) next). destruct (spawn_sends cfg now exp ts (tl rs) next) as [[sl sb] pre]. cbn in *. exact IH.
+  intros d d' c r L H.
+  destruct c; try exact H;
+    try (cbn in *; destruct H as [n [E [H|H]]]; exists n; (split; [exact E|]); [left; exact H|right; eapply prec_mono; eassumption]);
+    try (cbn in *; destruct H as [n [m [E [H|H]]]]; exists n, m; (split; [exact E|]); [left; exact H|right; eapply prec_mono; eassumption]);
+    destruct r; cbn in *; try exact I; try exact H.
+  - eapply Forall_impl; [|exact H]. intros p [Hp Hi]. split; [eapply prec_mono; eassumption|exact Hi].
+  - eapply Forall_impl; [|exact H]. intros p. apply prec_mono; exact L.
+  - eapply Forall_impl; [|exact H]. intros p. apply prec_mono; exact L.
+  - intros Hn. destruct (H Hn) as [q [Hq [Hid U]]]. destruct L as [A _]. destruct (A q Hq) as [q' [Hq' [Cq [Nq _]]]].
+    assert (Hne : p_state q <> Pending).
+    { destruct U as (s1&_&_&_&_&s6). rewrite s1. apply final_not_pending. exact s6. }
+    rewrite (Nq Hne) in Hq'. exists q. tauto.
 Qed.
 
-
-Lemma spawn_sends_pre_any : forall cfg now exp ts rs next now', Forall (cmd_at now') (snd (spawn_sends cfg now exp ts rs next)).
+Lemma rdy_ok_mono : forall d d' s c, prom_le d d' -> rdy_ok d s c -> rdy_ok d' s c.
 Proof.
-  induction ts as [|t ts IH]; intros rs next now'; cbn; [constructor|].
-  destruct (now <? t_timeout t).
-  - specialize (IH (tl rs) (S next) now'). destruct (spawn_sends cfg now exp ts (tl rs) (S next)) as [[sl sb] pre]. cbn in *. exact IH.
-  - specialize (IH (tl rs) next now'). destruct (spawn_sends cfg now exp ts (tl rs) next) as [[sl sb] pre]. cbn in *.
-    constructor; [exact I|exact IH].
+  intros d d' s c L H. destruct s, c; cbn in *; try exact I.
+  induction H; constructor; [eapply res_for_mono; eassumption|assumption].
 Qed.
 
-Lemma spawn_sends_pre_at : forall cfg now exp ts rs next, Forall (cmd_at now) (snd (spawn_sends cfg now exp ts rs next)).
+(* ---------- what a sequential coroutine is waiting for ---------- *)
+
+Definition k_expects (k : kont) (s : sub) : Prop :=
+  match k with
+  | KReadP id => s = SStore [ReadPromise id]
+  | KCreate r _ _ => s = SStore [ReadPromise (cpr_id r)]
+  | KComplete r => s = SStore [ReadPromise (cmr_id r)]
+  | KCallback pid _ _ _ _ => s = SStore [ReadPromise pid]
+  | KReadP_to _ _ cmd => exists t, s = SStore (completion_txn cmd t)
+  | KCreate_to _ _ _ _ cmd => exists t, s = SStore (completion_txn cmd t)
+  | KComplete_up _ _ cmd _ => exists t, s = SStore (completion_txn cmd t)
+  | KSearchP q st tg lim sid => s = SStore [SearchPromises q st tg lim sid]
+  | KBgTimeoutP => exists t l, s = SStore [ReadPromises t l]
+  | KCreate_store _ _ _ pc _ => s = SStore [CreatePromise pc] \/ exists tc, s = SStore [CreatePromiseAndTask pc tc]
+  | KClaim_read t =>
+    s = SStore (ReadPromise (m_root (t_mesg t)) ::
+                (if String.eqb (m_type (t_mesg t)) "resume" then [ReadPromise (m_leaf (t_mesg t))] else []))
+  | KBgEnqueue_promises ts => s = SStore (map (fun t => ReadPromise (t_root t)) ts)
+  | _ => True
+  end.
+
+(* a new state that awaits submission n awaits one of the submissions emitted in this very step *)
+Definition link_ok (next : nat) (o : step_out) : Prop :=
+  match o_state o with
+  | CSeq k n => (next <= n)%nat /\ exists s, nth_error (o_subs o) (n - next) = Some s /\ k_expects k s
+  | _ => True
+  end.
+
+(* every promise body a response shows is (a view of) a durable row *)
+Definition opt_list {A} (o : option A) : list A := match o with Some x => [x] | None => [] end.
+Definition resp_promises (r : response) : list promise :=
+  match r with
+  | RspPromise _ p => opt_list p
+  | RspPromiseTask _ p _ => opt_list p
+  | RspSearchP _ ps _ => ps
+  | RspCallback _ p _ => opt_list p
+  | RspClaim _ _ rp lp _ _ => opt_list rp ++ opt_list lp
+  | _ => []
+  end.
+Definition resp_ok (d : db) (r : option response) : Prop :=
+  match r with Some x => Forall (prec d) (resp_promises x) | None => True end.
+
+Definition out_ok (d : db) (now : Z) (next : nat) (o : step_out) : Prop :=
+  Forall (sub_at d now) (o_subs o) /\ st_ok d (o_state o) /\ link_ok next o /\ resp_ok d (o_resp o).
+
+Lemma out_wait_ok : forall d now next k s,
+    sub_at d now s -> k_ok d k -> k_expects k s -> out_ok d now next (out_wait k next s).
 Proof.
-  induction ts as [|t ts IH]; intros rs next; cbn; [constructor|].
-  destruct (now <? t_timeout t).
-  - specialize (IH (tl rs) (S next)). destruct (spawn_sends cfg now exp ts (tl rs) (S next)) as [[sl sb] pre]. cbn in *. exact IH.
-  - specialize (IH (tl rs) next). destruct (spawn_sends cfg now exp ts (tl rs) next) as [[sl sb] pre]. cbn in *.
-    constructor; [exact I|exact IH].
+  intros d now next k s Hs Hk He. unfold out_ok, out_wait, link_ok; cbn. split; [repeat constructor; exact Hs|].
+  split; [exact Hk|]. split; [|exact I]. split; [lia|]. exists s. rewrite Nat.sub_diag. cbn. split; [reflexivity|exact He].
+Qed.
+
+Lemma out_fin_ok : forall d now next r, Forall (prec d) (resp_promises r) -> out_ok d now next (out_fin r).
+Proof. intros. unfold out_ok, out_fin, link_ok; cbn. split; [constructor|split; [exact I|split; [exact I|assumption]]]. Qed.
+
+Lemma out_fin_nil : forall d now next r, resp_promises r = [] -> out_ok d now next (out_fin r).
+Proof. intros d now next r E. apply out_fin_ok. rewrite E. constructor. Qed.
+
+(* ---------- facts a coroutine learns from a delivered completion ---------- *)
+
+Lemma read_fact : forall d id c p,
+    rdy_ok d (SStore [ReadPromise id]) c -> one_promise c = Some (Some p) -> prec d p /\ p_id p = id.
+Proof.
+  intros d id c p H Ho. destruct c; cbn in Ho; try discriminate. destruct rs as [|r rs]; [discriminate|].
+  destruct r; try discriminate. cbn in H. inversion H; subst. cbn in H3.
+  destruct recs as [|x recs]; cbn in Ho; [discriminate|]. inversion Ho; subst. inversion H3; subst. exact H2.
+Qed.
+
+Lemma timeout_cmd_ok : forall d now p, prec d p -> overdue now p = true -> up_ok d now (timeout_cmd p).
+Proof.
+  intros d now p [q [Hq [C _]]] Ho. unfold overdue in Ho. apply andb_true_iff in Ho. destruct Ho as [_ Ho].
+  apply Z.leb_le in Ho. destruct C as (a&b&c&e&f&g&h). exists q. split; [exact Hq|]. split; [cbn; congruence|].
+  left. cbn. rewrite <- e, <- g. tauto.
+Qed.
+
+Lemma completion_txn_at : forall d now cmd, up_ok d now cmd -> sub_at d now (SStore (completion_txn cmd now)).
+Proof. intros d now cmd H. cbn. repeat constructor; cbn; auto. Qed.
+
+(* ---------- start ---------- *)
+
+Ltac fin := first [apply out_fin_nil; reflexivity | (apply out_fin_ok; cbn; repeat constructor; auto; fail)].
+Ltac fin1 := apply out_fin_ok; cbn; repeat constructor; auto.
+
+Lemma start_req_ok : forall d q now next, req_wf q -> out_ok d now next (start_req q now next).
+Proof.
+  intros d q now next Hq. destruct q; cbn; try (apply out_wait_ok; cbn; auto; repeat constructor; fail).
+  destruct (String.eqb pid root); [fin|]. apply out_wait_ok; cbn; auto; repeat constructor.
+Qed.
+
+Lemma start_bg_ok : forall d cfg b now next, out_ok d now next (start_bg cfg b now next).
+Proof. intros d cfg b now next. destruct b; cbn; apply out_wait_ok; cbn; eauto; repeat constructor. Qed.
+
+Lemma prec_unsorted : forall d p, prec d p -> prec d (p_unsorted p).
+Proof. intros d p [q [Hq [C K]]]. exists q. split; [exact Hq|]. split; [exact C|exact K]. Qed.
+
+Lemma prom_uniq_same : forall d q q', prom_uniq d -> In q (promises d) -> In q' (promises d) -> p_id q = p_id q' -> q = q'.
+Proof.
+  intros d q q' U. unfold prom_uniq in U. revert U. generalize (promises d) as ps.
+  induction ps as [|x ps IH]; cbn; intros U Hq Hq' E; [contradiction|]. inversion U; subst.
+  destruct Hq as [Hq|Hq], Hq' as [Hq'|Hq']; subst; auto.
+  - exfalso. apply H1. rewrite E. apply in_map. exact Hq'.
+  - exfalso. apply H1. rewrite <- E. apply in_map. exact Hq.
+Qed.
+
+(* the body a coroutine builds after its conditional update took effect is the durable row *)
+Lemma merged_prec : forall d p cmd,
+    prom_uniq d -> prec d p -> up_id cmd = p_id p ->
+    (exists q, In q (promises d) /\ p_id q = up_id cmd /\ ucompl cmd q) -> prec d (merged p cmd).
+Proof.
+  intros d p cmd U [q' [Hq' [C _]]] Hid [q [Hq [Hqid Hu]]].
+  assert (q = q') by (eapply prom_uniq_same; eauto; destruct C as (a&_); congruence). subst q'.
+  exists q. split; [exact Hq|]. split.
+  - unfold ceq in *. cbn. tauto.
+  - intros _. unfold compl_eq, ucompl in *. cbn. destruct Hu as (a&b&c&e&f&g). repeat split; congruence.
+Qed.
+
+Lemma alter_fact : forall d cmd t c n,
+    rdy_ok d (SStore (completion_txn cmd t)) c -> one_alter c = Some n -> n = 1 ->
+    exists q, In q (promises d) /\ p_id q = up_id cmd /\ ucompl cmd q.
+Proof.
+  intros d cmd t c n H Ho Hn. destruct c; cbn in Ho; try discriminate. destruct rs as [|r rs]; [discriminate|].
+  destruct r; try discriminate. inversion Ho; subst. cbn in H. inversion H; subst. cbn in H3. apply H3. reflexivity.
+Qed.
+
+(* ---------- the promise coroutines, one lemma per program point ---------- *)
+
+Section Resume.
+  Variable cfg : config.
+  Variable d : db.
+  Variable now : Z.
+  Variable next : nat.
+  Hypothesis Ud : prom_uniq d.
+
+  Lemma r_KReadP : forall id s c, k_expects (KReadP id) s -> rdy_ok d s c -> out_ok d now next (resume_seq cfg (KReadP id) c now next).
+  Proof.
+    intros id s c He Hr. cbn in He. subst s. cbn.
+    destruct (one_promise c) as [[p|]|] eqn:E; try fin.
+    destruct (read_fact d id c p Hr E) as [Hp Hid].
+    destruct (overdue now p) eqn:Eo; [|fin].
+    apply out_wait_ok; [apply completion_txn_at; apply timeout_cmd_ok; assumption|cbn; tauto|cbn; eauto].
+  Qed.
+
+  Lemma r_KReadP_to : forall id p cmd s c, k_ok d (KReadP_to id p cmd) -> k_expects (KReadP_to id p cmd) s -> rdy_ok d s c ->
+                                           out_ok d now next (resume_seq cfg (KReadP_to id p cmd) c now next).
+  Proof.
+    intros id p cmd s c [Hp Hid] [t He] Hr. subst s. cbn. destruct (one_alter c) as [n|] eqn:Eo; [|fin].
+    destruct (n =? 1) eqn:En; [|exact (start_req_ok d (QReadPromise id) now next I)].
+    apply Z.eqb_eq in En. fin1. apply merged_prec; auto. eapply alter_fact; eassumption.
+  Qed.
+
+  Lemma r_KCreate : forall r tc wt s c, k_expects (KCreate r tc wt) s -> rdy_ok d s c ->
+                                        out_ok d now next (resume_seq cfg (KCreate r tc wt) c now next).
+  Proof.
+    intros r tc wt s c He Hr. cbn in He. subst s. cbn.
+    destruct (one_promise c) as [[p|]|] eqn:E; try fin.
+    - destruct (read_fact d _ c p Hr E) as [Hp Hid].
+      destruct (overdue now p) eqn:Eo; [|destruct wt; fin].
+      apply out_wait_ok; [apply completion_txn_at; apply timeout_cmd_ok; assumption|cbn; tauto|cbn; eauto].
+    - apply out_wait_ok; cbn; auto.
+  Qed.
+
+  Lemma create_cmd_any : forall pc tc c cmd tc', create_cmd pc tc c = Some (cmd, tc') -> cmd_any cmd.
+  Proof.
+    intros pc tc c cmd tc' H. unfold create_cmd in H.
+    destruct c; try (destruct tc; inversion H; subst; exact I).
+    destruct recv; destruct tc; inversion H; subst; exact I.
+  Qed.
+
+  Lemma create_cmd_shape : forall pc tc c cmd tc', create_cmd pc tc c = Some (cmd, tc') ->
+                                                   cmd = CreatePromise pc \/ exists t, cmd = CreatePromiseAndTask pc t.
+  Proof.
+    intros pc tc c cmd tc' H. unfold create_cmd in H.
+    destruct c; try (destruct tc; inversion H; subst; auto; fail).
+    destruct recv; destruct tc; inversion H; subst; eauto.
+  Qed.
+
+  Lemma r_KCreate_router : forall r tc wt pc c, out_ok d now next (resume_seq cfg (KCreate_router r tc wt pc) c now next).
+  Proof.
+    intros r tc wt pc c. cbn. destruct (create_cmd pc tc c) as [[cmd tc']|] eqn:E; [|fin].
+    apply out_wait_ok; cbn; auto.
+    - repeat constructor. apply cmd_any_at. eapply create_cmd_any; eassumption.
+    - destruct (create_cmd_shape _ _ _ _ _ E) as [->|[t ->]]; eauto.
+  Qed.
+
+  Lemma req_of_create_ok : forall r tc wt, out_ok d now next (req_of_create r tc wt now next).
+  Proof. intros. unfold req_of_create. apply out_wait_ok; cbn; auto. repeat constructor. Qed.
+
+  Lemma r_KCreate_store : forall r tc0 wt pc tc s c, k_expects (KCreate_store r tc0 wt pc tc) s -> rdy_ok d s c ->
+                                                     out_ok d now next (resume_seq cfg (KCreate_store r tc0 wt pc tc) c now next).
+  Proof.
+    intros r tc0 wt pc tc s c He Hr. cbn in He. cbn. destruct c; try fin. destruct rs as [|x rs]; [fin|].
+    destruct x; try fin.
+    - destruct wt; [fin|]. destruct (rows =? 0) eqn:E0; [apply req_of_create_ok|]. fin1.
+      apply Z.eqb_neq in E0.
+      destruct He as [->|[t ->]]; cbn in Hr; inversion Hr as [|? ? ? ? Hhd Htl]; subst.
+      + destruct Hhd as [n [E [Hn|Hn]]]; inversion E; subst; [contradiction|exact Hn].
+      + destruct Hhd as [n [m [E _]]]. discriminate.
+    - destruct (negb (prows =? trows)); [fin|]. destruct (prows =? 0) eqn:E0; [apply req_of_create_ok|].
+      apply Z.eqb_neq in E0.
+      assert (Hc : prec d (created_promise pc)).
+      { destruct He as [->|[t ->]]; cbn in Hr; inversion Hr as [|? ? ? ? Hhd Htl]; subst.
+        - destruct Hhd as [n [E _]]. discriminate.
+        - destruct Hhd as [n [m [E [Hn|Hn]]]]; inversion E; subst; [contradiction|exact Hn]. }
+      destruct wt; fin.
+  Qed.
+
+  Lemma r_KCreate_to : forall r tc wt p cmd s c, k_ok d (KCreate_to r tc wt p cmd) -> k_expects (KCreate_to r tc wt p cmd) s ->
+                                                 rdy_ok d s c -> out_ok d now next (resume_seq cfg (KCreate_to r tc wt p cmd) c now next).
+  Proof.
+    intros r tc wt p cmd s c [Hp Hid] [t He] Hr. subst s. cbn. destruct (one_alter c) as [n|] eqn:Eo; [|fin].
+    destruct (n =? 1) eqn:En; [|apply req_of_create_ok]. apply Z.eqb_eq in En.
+    assert (Hm : prec d (merged p cmd)) by (apply merged_prec; auto; eapply alter_fact; eassumption).
+    destruct wt; fin.
+  Qed.
+
+  Lemma r_KComplete : forall r s c, k_ok d (KComplete r) -> k_expects (KComplete r) s -> rdy_ok d s c ->
+                                    out_ok d now next (resume_seq cfg (KComplete r) c now next).
+  Proof.
+    intros r s c Hk He Hr. cbn in He, Hk. subst s. cbn.
+    destruct (one_promise c) as [[p|]|] eqn:E; try fin.
+    destruct (read_fact d _ c p Hr E) as [Hp Hid].
+    destruct (p_state p =? Pending) eqn:Es; [|fin].
+    destruct (now <? p_timeout p) eqn:Et.
+    - apply out_wait_ok; [|cbn; repeat split; auto|cbn; eauto]. apply completion_txn_at.
+      destruct Hp as [q [Hq [C _]]]. destruct C as (a&b&c0&e&f&g&h). exists q. split; [exact Hq|]. split; [cbn; congruence|].
+      right. cbn. apply Z.ltb_lt in Et. rewrite <- e. split; [exact Et|split; [lia|exact Hk]].
+    - apply out_wait_ok; [|cbn; repeat split; auto|cbn; eauto]. apply completion_txn_at.
+      destruct Hp as [q [Hq [C _]]]. destruct C as (a&b&c0&e&f&g&h). exists q. split; [exact Hq|]. split; [cbn; congruence|].
+      left. cbn. apply Z.ltb_ge in Et. rewrite <- e, <- g. tauto.
+  Qed.
+
+  Lemma r_KComplete_up : forall r p cmd st s c, k_ok d (KComplete_up r p cmd st) -> k_expects (KComplete_up r p cmd st) s ->
+                                               rdy_ok d s c -> out_ok d now next (resume_seq cfg (KComplete_up r p cmd st) c now next).
+  Proof.
+    intros r p cmd st s c [Hp [Hid Hu]] [t He] Hr. subst s. cbn. destruct (one_alter c) as [n|] eqn:Eo; [|fin].
+    destruct (n =? 1) eqn:En; [|exact (start_req_ok d (QCompletePromise r) now next Hu)].
+    apply Z.eqb_eq in En. fin1. apply merged_prec; auto. eapply alter_fact; eassumption.
+  Qed.
+
+  Lemma r_KCallback : forall pid cbid m timeout recv s c, k_expects (KCallback pid cbid m timeout recv) s -> rdy_ok d s c ->
+                      out_ok d now next (resume_seq cfg (KCallback pid cbid m timeout recv) c now next).
+  Proof.
+    intros pid cbid m timeout recv s c He Hr. cbn in He. subst s. cbn.
+    destruct (one_promise c) as [[p|]|] eqn:E; try fin.
+    destruct (read_fact d _ c p Hr E) as [Hp Hid].
+    destruct (p_state p =? Pending); [|fin]. apply out_wait_ok; cbn; auto. repeat constructor.
+  Qed.
+
+  Lemma r_KCallback_ins : forall p cc c, k_ok d (KCallback_ins p cc) -> out_ok d now next (resume_seq cfg (KCallback_ins p cc) c now next).
+  Proof. intros p cc c Hp. cbn in Hp. cbn. destruct (one_alter c) as [n|]; [|fin]. destruct (n =? 1); fin. Qed.
+
+  Lemma r_KClaim_read : forall t s c, k_expects (KClaim_read t) s -> rdy_ok d s c -> out_ok d now next (resume_seq cfg (KClaim_read t) c now next).
+  Proof.
+    intros t s c He Hr. cbn in He. subst s. cbn. destruct c; try fin. destruct rs as [|x rs]; [fin|]. destruct x; try fin.
+    cbn in Hr. inversion Hr as [|? ? ? ? Hhd Htl]; subst. cbn in Hhd.
+    apply out_fin_ok. cbn. apply Forall_app. split.
+    - destruct recs as [|x recs]; cbn; [constructor|]. inversion Hhd; subst. constructor; [tauto|constructor].
+    - destruct (String.eqb (m_type (t_mesg t)) "resume"); cbn; [|constructor].
+      destruct rs as [|y rs]; cbn; [constructor|]. destruct y; cbn; try constructor.
+      inversion Htl as [|? ? ? ? Hhd2 Htl2]; subst. cbn in Hhd2.
+      destruct recs0 as [|z recs0]; cbn; [constructor|]. inversion Hhd2; subst. constructor; [tauto|constructor].
+  Qed.
+End Resume.
+
+(* ---------- fan-outs ---------- *)
+
+Lemma spawn_timeouts_at : forall d ps now next,
+    Forall (fun p => prec d p /\ overdue now p = true) ps -> Forall (sub_at d now) (snd (spawn_timeouts ps now next)).
+Proof.
+  induction ps as [|p ps IH]; intros now next H; cbn; [constructor|]. inversion H; subst.
+  specialize (IH now (S next) H3). destruct (spawn_timeouts ps now (S next)) as [sl sb]. cbn in *.
+  constructor; [|exact IH]. apply completion_txn_at. apply timeout_cmd_ok; tauto.
 Qed.
 
 Lemma spawn_timeouts_slots : forall ps now next, Forall extra_ok (fst (spawn_timeouts ps now next)).
@@ -83,15 +486,37 @@ Proof.
   induction ps as [|p ps IH]; intros now next; cbn; [constructor|].
   specialize (IH now (S next)). destruct (spawn_timeouts ps now (S next)) as [sl sb]. cbn in *. constructor; [exact I|exact IH].
 Qed.
+
+Lemma spawn_schedules_at : forall d cfg now ss next, Forall (sub_at d now) (snd (spawn_schedules cfg now ss next)).
+Proof.
+  induction ss as [|s ss IH]; intros next; cbn; [constructor|].
+  destruct (schedule_child cfg now s) as [[pc extra]|].
+  - specialize (IH (S next)). destruct (spawn_schedules cfg now ss (S next)) as [sl sb]. cbn in *. constructor; [exact I|exact IH].
+  - specialize (IH next). destruct (spawn_schedules cfg now ss next) as [sl sb]. cbn in *. exact IH.
+Qed.
+
 Lemma spawn_schedules_slots : forall cfg now ss next, Forall extra_ok (fst (spawn_schedules cfg now ss next)).
 Proof.
   induction ss as [|s ss IH]; intros next; cbn; [constructor|].
   destruct (schedule_child cfg now s) as [[pc extra]|] eqn:E.
   - specialize (IH (S next)). destruct (spawn_schedules cfg now ss (S next)) as [sl sb]. cbn in *. constructor; [|exact IH].
-    cbn. intros now'. unfold schedule_child in E. destruct (c_next cfg (s_cron s) (s_next s)); [|discriminate].
+    cbn. unfold schedule_child in E. destruct (c_next cfg (s_cron s) (s_next s)); [|discriminate].
     destruct (expand _ _ _); [|discriminate]. inversion E; subst. repeat constructor.
   - specialize (IH next). destruct (spawn_schedules cfg now ss next) as [sl sb]. cbn in *. constructor; [exact I|exact IH].
 Qed.
+
+Lemma spawn_sends_at : forall d cfg now exp ts rs next,
+    Forall (res_ok d) rs -> Forall (sub_at d now) (snd (fst (spawn_sends cfg now exp ts rs next))).
+Proof.
+  induction ts as [|t ts IH]; intros rs next Hrs; cbn; [constructor|].
+  assert (Htl : Forall (res_ok d) (tl rs)) by (destruct rs; [constructor|inversion Hrs; assumption]).
+  destruct (now <? t_timeout t).
+  - specialize (IH (tl rs) (S next) Htl). destruct (spawn_sends cfg now exp ts (tl rs) (S next)) as [[sl sb] pre]. cbn in *.
+    constructor; [|exact IH]. cbn. destruct rs as [|r rs]; cbn; [exact I|]. destruct r; cbn; try exact I.
+    destruct recs as [|p recs]; cbn; [exact I|]. inversion Hrs; subst. cbn in H1. inversion H1; assumption.
+  - specialize (IH (tl rs) next Htl). destruct (spawn_sends cfg now exp ts (tl rs) next) as [[sl sb] pre]. cbn in *. exact IH.
+Qed.
+
 Lemma spawn_sends_slots : forall cfg now exp ts rs next, Forall extra_ok (fst (fst (spawn_sends cfg now exp ts rs next))).
 Proof.
   induction ts as [|t ts IH]; intros rs next; cbn; [constructor|].
@@ -100,74 +525,125 @@ Proof.
   - specialize (IH (tl rs) next). destruct (spawn_sends cfg now exp ts (tl rs) next) as [[sl sb] pre]. cbn in *. constructor; [exact I|exact IH].
 Qed.
 
-Local Arguments spawn_timeouts : simpl never.
-Local Arguments spawn_schedules : simpl never.
-Local Arguments spawn_sends : simpl never.
-
-Ltac close_emit :=
-  match goal with
-  | H : spawn_timeouts ?ps ?now ?next = (_, ?sb) |- Forall _ ?sb =>
-    let H2 := fresh in pose proof (spawn_timeouts_at ps now next) as H2; rewrite H in H2; exact H2
-  | H : spawn_schedules ?cfg ?now ?ss ?next = (_, ?sb) |- Forall _ ?sb =>
-    let H2 := fresh in pose proof (spawn_schedules_at cfg now ss next) as H2; rewrite H in H2; exact H2
-  | H : spawn_sends ?cfg ?now ?exp ?ts ?rs ?next = (_, ?sb, _) |- Forall _ ?sb =>
-    let H2 := fresh in pose proof (spawn_sends_at cfg now exp ts rs next) as H2; rewrite H in H2; exact H2
-  | H : spawn_sends ?cfg ?now ?exp ?ts ?rs ?next = (_, ?s :: ?sb, _) |- Forall _ (?s :: ?sb) =>
-    let H2 := fresh in pose proof (spawn_sends_at cfg now exp ts rs next) as H2; rewrite H in H2; exact H2
-  end.
-
-Ltac map_cmds :=
-  apply Forall_forall; let x := fresh "x" in let Hx := fresh "Hx" in
-  intros x Hx; apply in_map_iff in Hx; destruct Hx as [? [? _]]; subst; cbn;
-  repeat match goal with |- context [if ?b then _ else _] => destruct b end; cbn; auto.
-
-Ltac close_slots :=
-  match goal with
-  | H : spawn_timeouts ?ps ?now ?next = (?sl, _) |- Forall extra_ok ?sl =>
-    let H2 := fresh in pose proof (spawn_timeouts_slots ps now next) as H2; rewrite H in H2; exact H2
-  | H : spawn_schedules ?cfg ?now ?ss ?next = (?sl, _) |- Forall extra_ok ?sl =>
-    let H2 := fresh in pose proof (spawn_schedules_slots cfg now ss next) as H2; rewrite H in H2; exact H2
-  | H : spawn_sends ?cfg ?now ?exp ?ts ?rs ?next = (?sl, _, _) |- Forall extra_ok ?sl =>
-    let H2 := fresh in pose proof (spawn_sends_slots cfg now exp ts rs next) as H2; rewrite H in H2; exact H2
-  end.
-
-Lemma create_cmd_at : forall now pc tc c cmd tc', create_cmd pc tc c = Some (cmd, tc') -> cmd_at now cmd.
+Lemma spawn_sends_pre : forall cfg now exp ts rs next, Forall cmd_any (snd (spawn_sends cfg now exp ts rs next)).
 Proof.
-  intros now pc tc c cmd tc' H. unfold create_cmd in H.
-  destruct c; try (destruct tc; inversion H; subst; exact I).
-  destruct recv; destruct tc; inversion H; subst; exact I.
+  induction ts as [|t ts IH]; intros rs next; cbn; [constructor|].
+  destruct (now <? t_timeout t).
+  - specialize (IH (tl rs) (S next)). destruct (spawn_sends cfg now exp ts (tl rs) (S next)) as [[sl sb] pre]. cbn in *. exact IH.
+  - specialize (IH (tl rs) next). destruct (spawn_sends cfg now exp ts (tl rs) next) as [[sl sb] pre]. cbn in *.
+    constructor; [exact I|exact IH].
 Qed.
 
-Lemma start_req_ok : forall q now next, out_ok now (start_req q now next).
-Proof.
-  intros q now next. destruct q; cbn; try (split; [repeat constructor|exact I]).
-  destruct (String.eqb pid root); cbn; (split; [repeat constructor|exact I]).
-Qed.
+Lemma Forall_any_at : forall d now cs, Forall cmd_any cs -> Forall (cmd_at d now) cs.
+Proof. intros d now cs H. eapply Forall_impl; [|exact H]. intros c. apply cmd_any_at. Qed.
 
-Lemma start_bg_ok : forall cfg b now next, out_ok now (start_bg cfg b now next).
-Proof. intros cfg b now next. destruct b; cbn; (split; [repeat constructor|exact I]). Qed.
+Section Resume2.
+  Variable cfg : config.
+  Variable d : db.
+  Variable now : Z.
+  Variable next : nat.
 
-Lemma resume_seq_ok : forall cfg k c now next, out_ok now (resume_seq cfg k c now next).
-Proof.
-  intros cfg k c now next.
-  destruct k; cbn; repeat (head_split; cbn); try apply start_req_ok;
-    (split; cbn; [|try exact I; try (split; [close_slots|try exact I])]); try (repeat constructor; fail); try close_emit.
-  all: try (repeat constructor; eapply create_cmd_at; eassumption).
-  all: try (repeat constructor; destruct (_ =? _)%string; repeat constructor; fail).
-  all: try (repeat constructor; map_cmds; fail).
-  all: try (match goal with H : spawn_sends ?cfg ?now ?exp ?ts ?rs ?next = (_, _, ?pre) |- Forall _ [SStore ?pre] =>
-      pose proof (spawn_sends_pre_at cfg now exp ts rs next) as H2; rewrite H in H2; cbn in H2 end;
-    repeat constructor; inversion H2; assumption).
-  all: try (repeat constructor; [destruct (now <? _); exact I|map_cmds]; fail).
-  all: try (intros now'; match goal with H : spawn_sends ?cfg ?now ?exp ?ts ?rs ?next = (_, _, ?pre) |- Forall _ ?pre =>
-      pose proof (spawn_sends_pre_any cfg now exp ts rs next now') as H2; rewrite H in H2; exact H2 end).
-Qed.
+  Hypothesis Ud : prom_uniq d.
 
-Lemma wake_slot_at : forall s c next now, extra_ok s -> Forall (sub_at now) (snd (wake_slot s c next)).
+  Lemma fan_out_ok : forall k sl wake sb,
+      Forall (sub_at d now) sb -> Forall extra_ok sl -> fk_ok k -> out_ok d now next (mkOut (CFan k sl wake) sb None).
+  Proof. intros. unfold out_ok, link_ok; cbn. tauto. Qed.
+
+  Lemma r_KSearchP : forall q st tg lim sid s c, k_expects (KSearchP q st tg lim sid) s -> rdy_ok d s c ->
+                     out_ok d now next (resume_seq cfg (KSearchP q st tg lim sid) c now next).
+  Proof.
+    intros q st tg lim sid s c He Hr. cbn in He. subst s. cbn.
+    destruct c; try fin. destruct rs as [|x rs]; [fin|]. destruct x; try fin.
+    cbn in Hr. inversion Hr; subst. cbn in H2.
+    destruct (filter (overdue now) recs) as [|p od] eqn:Ef.
+    { apply out_fin_ok. cbn. apply Forall_forall. intros x Hx. apply in_map_iff in Hx. destruct Hx as [y [<- Hy]].
+      apply prec_unsorted. eapply Forall_forall in H2; eassumption. }
+    assert (Hod : Forall (fun p => prec d p /\ overdue now p = true) (p :: od)).
+    { rewrite <- Ef. apply Forall_forall. intros x Hx. apply filter_In in Hx. destruct Hx as [Hx Ho]. split; [|exact Ho].
+      eapply Forall_forall in H2; eassumption. }
+    pose proof (spawn_timeouts_at d (p :: od) now next Hod) as H1.
+    pose proof (spawn_timeouts_slots (p :: od) now next) as H3.
+    destruct (spawn_timeouts (p :: od) now next) as [sl sb]. apply fan_out_ok; cbn; auto.
+  Qed.
+
+  Lemma r_KBgTimeoutP : forall s c, k_expects KBgTimeoutP s -> rdy_ok d s c ->
+                                   out_ok d now next (resume_seq cfg KBgTimeoutP c now next).
+  Proof.
+    intros s c [t [l He]] Hr. subst s. cbn.
+    destruct c; try fin. destruct rs as [|x rs]; [fin|]. destruct x; try fin.
+    cbn in Hr. inversion Hr; subst. cbn in H2.
+    destruct (forallb (overdue now) recs) eqn:Ea; cbn; [|fin].
+    assert (Hod : Forall (fun p => prec d p /\ overdue now p = true) recs).
+    { apply Forall_forall. intros x Hx. split; [eapply Forall_forall in H2; eassumption|].
+      eapply forallb_forall in Ea; eassumption. }
+    pose proof (spawn_timeouts_at d recs now next Hod) as H1.
+    pose proof (spawn_timeouts_slots recs now next) as H3.
+    destruct (spawn_timeouts recs now next) as [sl sb]. destruct sl; [fin|]. apply fan_out_ok; cbn; auto.
+  Qed.
+
+  Lemma r_KBgSchedule : forall c, out_ok d now next (resume_seq cfg KBgSchedule c now next).
+  Proof.
+    intros c. cbn. destruct c; try fin. destruct rs as [|x rs]; [fin|]. destruct x; try fin.
+    pose proof (spawn_schedules_at d cfg now recs next) as H1.
+    pose proof (spawn_schedules_slots cfg now recs next) as H3.
+    destruct (spawn_schedules cfg now recs next) as [sl sb].
+    destruct (forallb _ sl); [fin|]. apply fan_out_ok; cbn; auto.
+  Qed.
+
+  Lemma reads_res_ok : forall cs rs, Forall2 (res_for d) cs rs -> (forall c, In c cs -> exists id, c = ReadPromise id) -> Forall (res_ok d) rs.
+  Proof.
+    intros cs rs H. induction H; intros Hc; constructor.
+    - destruct (Hc x (or_introl eq_refl)) as [id ->]. destruct y; cbn in *; try exact I.
+      eapply Forall_impl; [|exact H]. intros p [Hp _]. exact Hp.
+    - apply IHForall2. intros c Hin. apply Hc. right. exact Hin.
+  Qed.
+
+  Lemma r_KBgEnqueue_promises : forall ts s c, k_expects (KBgEnqueue_promises ts) s -> rdy_ok d s c ->
+                                                out_ok d now next (resume_seq cfg (KBgEnqueue_promises ts) c now next).
+  Proof.
+    intros ts s c He Hr. cbn in He. subst s. cbn. destruct c; try fin.
+    assert (Hrs : Forall (res_ok d) rs).
+    { cbn in Hr. eapply reads_res_ok; [exact Hr|]. intros c Hc. apply in_map_iff in Hc. destruct Hc as [t [<- _]]. eauto. }
+    pose proof (spawn_sends_at d cfg now (add64 now (c_enq_delay cfg)) ts rs next Hrs) as H1.
+    pose proof (spawn_sends_slots cfg now (add64 now (c_enq_delay cfg)) ts rs next) as H3.
+    pose proof (spawn_sends_pre cfg now (add64 now (c_enq_delay cfg)) ts rs next) as H4.
+    destruct (spawn_sends cfg now (add64 now (c_enq_delay cfg)) ts rs next) as [[sl sb] pre]. cbn in *.
+    destruct sb as [|s0 sb].
+    - destruct pre as [|c0 pre]; [fin|]. apply out_wait_ok; cbn; auto. apply Forall_any_at; exact H4.
+    - apply fan_out_ok; cbn; auto.
+  Qed.
+
+  Lemma map_any : forall {A} (f : A -> command) l, (forall x, cmd_any (f x)) -> Forall (cmd_at d now) (map f l).
+  Proof. intros A f l H. apply Forall_forall. intros c Hc. apply in_map_iff in Hc. destruct Hc as [x [<- _]]. apply cmd_any_at. apply H. Qed.
+
+  Lemma resume_seq_ok : forall k s c, k_ok d k -> k_expects k s -> rdy_ok d s c -> out_ok d now next (resume_seq cfg k c now next).
+  Proof.
+    intros k s c Hk He Hr. destruct k;
+      try (eapply r_KReadP; eassumption); try (eapply r_KReadP_to; eassumption); try (eapply r_KCreate; eassumption);
+      try apply r_KCreate_router; try (eapply r_KCreate_store; eassumption); try (eapply r_KCreate_to; eassumption);
+      try (eapply r_KComplete; eassumption); try (eapply r_KComplete_up; eassumption);
+      try (eapply r_KCallback; eassumption); try (apply r_KCallback_ins; assumption); try (eapply r_KSearchP; eassumption);
+      try (eapply r_KClaim_read; eassumption);
+      try (eapply r_KBgTimeoutP; eassumption); try apply r_KBgSchedule; try (eapply r_KBgEnqueue_promises; eassumption).
+    all: cbn.
+    all: repeat match goal with
+                | |- out_ok _ _ _ (match ?x with _ => _ end) => destruct x eqn:?
+                end.
+    all: try fin.
+    all: try (apply out_wait_ok; cbn; auto; repeat constructor; fail).
+    all: try (exact (start_req_ok d _ now next I)).
+    - apply out_wait_ok; cbn; auto. constructor; [exact I|]. destruct (_ =? _)%string; repeat constructor.
+    - apply out_wait_ok; cbn; auto. constructor; [exact I|]. apply (map_any (fun t0 => ReadPromise (t_root t0))). intros; exact I.
+    - apply out_wait_ok; cbn; auto. constructor; [destruct (now <? _); exact I|].
+      apply map_any. intros x. destruct (now <? t_timeout x); exact I.
+  Qed.
+End Resume2.
+
+Lemma wake_slot_at : forall d s c next now, extra_ok s -> Forall (sub_at d now) (snd (wake_slot s c next)).
 Proof.
-  intros s c next now He. destruct s; cbn; try constructor.
+  intros d s c next now He. destruct s; cbn; try constructor.
   destruct (create_cmd pc None c) as [[cmd tc]|] eqn:E; cbn; [|constructor].
-  repeat constructor; [eapply create_cmd_at; eassumption|apply He].
+  repeat constructor; [apply cmd_any_at; eapply create_cmd_any; eassumption|apply Forall_any_at; exact He].
 Qed.
 
 Lemma wake_slot_extra : forall s c next, extra_ok s -> extra_ok (fst (wake_slot s c next)).
@@ -183,52 +659,64 @@ Qed.
 Lemma nth_error_forall : forall {A} (P : A -> Prop) l i x, Forall P l -> nth_error l i = Some x -> P x.
 Proof. intros A P l i x Hl H. eapply Forall_forall; [exact Hl|]. eapply nth_error_In; eassumption. Qed.
 
-Lemma run_wake_at : forall wake slots dl next now,
+Lemma run_wake_at : forall d wake slots dl next now,
     Forall extra_ok slots ->
-    let '(sl, w, rq, sb, nx) := run_wake wake slots dl next in Forall (sub_at now) sb /\ Forall extra_ok sl.
+    let '(sl, w, rq, sb, nx) := run_wake wake slots dl next in
+    Forall (sub_at d now) sb /\ Forall extra_ok sl /\ nx = (next + List.length sb)%nat.
 Proof.
-  induction wake as [|i wake IH]; intros slots dl next now He; cbn; [split; [constructor|exact He]|].
+  induction wake as [|i wake IH]; intros slots dl next now He; cbn; [split; [constructor|split; [exact He|lia]]|].
   destruct (nth_error slots i) as [s|] eqn:En; [|apply IH; exact He].
-  destruct (find (fun d => slot_waits (fst d) s) dl) as [d|].
-  - pose proof (wake_slot_at s (snd d) next now (nth_error_forall _ _ _ _ He En)) as Hw.
-    pose proof (wake_slot_extra s (snd d) next (nth_error_forall _ _ _ _ He En)) as Hx.
-    destruct (wake_slot s (snd d) next) as [s' subs]. cbn in Hw, Hx.
+  destruct (find (fun x => slot_waits (fst x) s) dl) as [x|].
+  - pose proof (wake_slot_at d s (snd x) next now (nth_error_forall _ _ _ _ He En)) as Hw.
+    pose proof (wake_slot_extra s (snd x) next (nth_error_forall _ _ _ _ He En)) as Hx.
+    destruct (wake_slot s (snd x) next) as [s' subs]. cbn in Hw, Hx.
     specialize (IH (set_nth i s' slots) dl (next + List.length subs)%nat now (set_nth_forall _ _ _ _ He Hx)).
     destruct (run_wake wake (set_nth i s' slots) dl (next + List.length subs)%nat) as [[[[sl w] rq] sb] nx].
-    destruct IH as [IH1 IH2]. destruct s'; (split; [apply Forall_app; split; assumption|assumption]).
+    destruct IH as [IH1 [IH2 IH3]].
+    destruct s'; (split; [apply Forall_app; split; assumption|split; [assumption|rewrite app_length; lia]]).
   - specialize (IH slots dl next now He). destruct (run_wake wake slots dl next) as [[[[sl w] rq] sb] nx]. exact IH.
 Qed.
 
-Lemma enq_final_at : forall ts now0 exp slots now, Forall (cmd_at now) (enq_final ts now0 exp slots).
+Lemma enq_final_any : forall ts now0 exp slots, Forall cmd_any (enq_final ts now0 exp slots).
 Proof.
-  induction ts as [|t ts IH]; intros now0 exp slots now; cbn; [constructor|].
+  induction ts as [|t ts IH]; intros now0 exp slots; cbn; [constructor|].
   destruct slots as [|s sl]; [constructor|]. destruct s; try apply IH.
   destruct (now0 <? t_timeout t); [|apply IH]. constructor; [|apply IH].
   unfold enq_update. destruct (is_notify t); [exact I|]. destruct c; try exact I. destruct ok; exact I.
 Qed.
 
-Lemma run_fan_ok : forall cfg k slots wake dl now next,
-    Forall extra_ok slots -> fk_ok k -> out_ok now (run_fan cfg k slots wake dl now next).
+Lemma nth_error_app_len : forall {A} (l : list A) x n, n = List.length l -> nth_error (l ++ [x]) n = Some x.
+Proof. intros A l x n ->. rewrite nth_error_app2 by lia. rewrite Nat.sub_diag. reflexivity. Qed.
+
+Lemma run_fan_ok : forall d cfg k slots wake dl now next,
+    Forall extra_ok slots -> fk_ok k -> out_ok d now next (run_fan cfg k slots wake dl now next).
 Proof.
-  intros cfg k slots wake dl now next He Hk. unfold run_fan.
-  pose proof (run_wake_at wake slots dl next now He) as Hw.
-  destruct (run_wake wake slots dl next) as [[[[sl w] rq] sb] nx]. destruct Hw as [Hsb Hsl].
+  intros d cfg k slots wake dl now next He Hk. unfold run_fan.
+  pose proof (run_wake_at d wake slots dl next now He) as Hw.
+  destruct (run_wake wake slots dl next) as [[[[sl w] rq] sb] nx]. destruct Hw as [Hsb [Hsl Hnx]].
   destruct k.
-  - destruct (await_in_order true sl); cbn; try (split; [assumption|cbn; auto]).
-    pose proof (start_req_ok (QSearchPromises idq states tags limit sortid) now nx) as [H1 H2].
-    split; cbn; [apply Forall_app; split; assumption|assumption].
-  - destruct (await_in_order false sl); cbn; (split; [assumption|cbn; auto]).
-  - destruct (await_in_order false sl); cbn; (split; [assumption|cbn; auto]).
-  - destruct (await_in_order false sl); cbn; try (split; [assumption|cbn; auto]).
-    destruct (pre ++ enq_final ts now0 exp sl)%list eqn:E; cbn; (split; [|cbn; auto]); [assumption|].
-    apply Forall_app; split; [assumption|]. constructor; [|constructor]. cbn. rewrite <- E.
-    apply Forall_app; split; [apply Hk|apply enq_final_at].
+  - destruct (await_in_order true sl); cbn; try (unfold out_ok, link_ok; cbn; repeat split; auto; fail).
+    unfold out_ok, link_ok; cbn. split; [apply Forall_app; split; [assumption|repeat constructor]|]. split; [exact I|].
+    split; [|exact I]. split; [lia|]. eexists. split; [apply nth_error_app_len; lia|reflexivity].
+  - destruct (await_in_order false sl); cbn; unfold out_ok, link_ok; cbn; repeat split; auto.
+  - destruct (await_in_order false sl); cbn; unfold out_ok, link_ok; cbn; repeat split; auto.
+  - destruct (await_in_order false sl); cbn; try (unfold out_ok, link_ok; cbn; repeat split; auto; fail).
+    destruct (pre ++ enq_final ts now0 exp sl)%list eqn:E; cbn; unfold out_ok, link_ok; cbn; [repeat split; auto|].
+    split; [|split; [exact I|split; [|exact I]]].
+    + apply Forall_app; split; [assumption|]. constructor; [|constructor]. cbn. rewrite <- E.
+      apply Forall_any_at. apply Forall_app; split; [exact Hk|apply enq_final_any].
+    + split; [lia|]. eexists. split; [apply nth_error_app_len; lia|exact I].
 Qed.
 
-Lemma run_inst_ok : forall cfg st dl now next, st_ok st -> out_ok now (run_inst cfg st dl now next).
+Lemma run_inst_ok : forall d cfg st dl now next,
+    prom_uniq d -> st_ok d st ->
+    (forall n c, In (n, c) dl -> exists s, rdy_ok d s c /\ (forall k, st = CSeq k n -> k_expects k s)) ->
+    run_inst cfg st dl now next = mkOut st [] None \/ out_ok d now next (run_inst cfg st dl now next).
 Proof.
-  intros cfg st dl now next Hs. destruct st; cbn.
-  - destruct (find _ dl); [apply resume_seq_ok|]. split; cbn; [constructor|exact I].
-  - destruct Hs. apply run_fan_ok; assumption.
-  - split; cbn; [constructor|exact I].
+  intros d cfg st dl now next Ud Hs Hdl. destruct st; cbn.
+  - destruct (find (fun x => Nat.eqb (fst x) n) dl) as [[m c]|] eqn:F; [|left; reflexivity]. right.
+    apply find_some in F. destruct F as [Fin Fe]. cbn in Fe. apply Nat.eqb_eq in Fe. subst m.
+    destruct (Hdl n c Fin) as [s [Hr He]]. eapply resume_seq_ok; [exact Ud|exact Hs|apply He; reflexivity|exact Hr].
+  - right. destruct Hs. apply run_fan_ok; assumption.
+  - left. reflexivity.
 Qed.
